@@ -13,7 +13,7 @@ def gen(rnd, n):
 def seeded(U, rnd, quick):
     jobs = []
     for r in range(4 if quick else 40):
-        n = rnd.choice([1, 2, 2, 3, 3, 4, 5])
+        n = [5, 3, 2, 4, 1][r % 5]          # every component count of the property's scope, the rarest first
         texts = set()
         while len(texts) < 150: texts.add(gen(rnd, n))
         jobs.append({"k": "matrix", "eco": "alpine", "tag": "seeded", "texts": sorted(texts), "part": []})
